@@ -26,6 +26,8 @@ type decoderIn struct {
 	} `json:"fault"`
 	Frag     []int  `json:"frag"`
 	Consumer string `json:"consumer"`
+	// Beside: the query also selects a second, healthy container; only this stream's records are reported
+	Beside bool `json:"beside"`
 }
 
 func (famDecoder) Gen(r *rand.Rand, n int, _ map[string]string) []any {
@@ -116,6 +118,7 @@ func (famDecoder) Gen(r *rand.Rand, n int, _ map[string]string) []any {
 			in.Frames = []Frame{}
 		}
 		in.Consumer = consumers[r.Intn(len(consumers))]
+		in.Beside = in.Consumer != "parselog" && r.Intn(2) == 0
 		out = append(out, in)
 	}
 	return out
@@ -128,10 +131,19 @@ func (famDecoder) Exec(scn int, raw json.RawMessage, t *Trace, _ map[string]stri
 	}
 	t.Scenario(scn, raw)
 	ctr := simpleCtr("c1", "c1", in.Frames)
-	fake := newFakeDocker(nil, scn, []FakeCtr{ctr}) // transport events are not part of this family's vocabulary
+	ctrs := []FakeCtr{ctr}
+	if in.Beside {
+		other := []Frame{{Typ: 1, TS: []int{1700000000, 5}, Msg: B("other-1")}, {Typ: 2, TS: []int{1700000400, 0}, Msg: B("other-2")}}
+		if scn%2 == 0 {
+			ctrs = append(ctrs, simpleCtr("c2", "c2", other))
+		} else {
+			ctrs = []FakeCtr{simpleCtr("c0", "c0", other), ctr}
+		}
+	}
+	fake := newFakeDocker(nil, scn, ctrs) // transport events are not part of this family's vocabulary
 	fake.frag = in.Frag
 	if in.Fault.Kind != "none" {
-		fake.faults = []Fault{{Kind: in.Fault.Kind, Ctr: 1, Pos: in.Fault.Pos}}
+		fake.faults = []Fault{{Kind: in.Fault.Kind, Ctr: indexOfCtr(ctrs, "c1"), Pos: in.Fault.Pos}}
 	}
 	switch in.Consumer {
 	case "parselog":
@@ -173,6 +185,9 @@ func (famDecoder) Exec(scn int, raw json.RawMessage, t *Trace, _ map[string]stri
 		if in.Consumer == "evallog" && r.Err == nil && r.Panic == nil && !r.Hang {
 			if s, ok := r.Data.GetStreamsResult(); ok {
 				for _, e := range flatten(s.Result) {
+					if e.Labels["container"] != "c1" {
+						continue
+					}
 					t.Ev(scn, "Entry", F{"ts": sn(e.T), "line": B(e.Line)})
 				}
 			}
@@ -182,6 +197,9 @@ func (famDecoder) Exec(scn int, raw json.RawMessage, t *Trace, _ map[string]stri
 				// last step covers every record: total count over all series
 				total := 0
 				for _, s := range m.Result {
+					if s.Metric.Value["container"] != "c1" {
+						continue
+					}
 					if len(s.Values) > 0 {
 						total += int(parseFloatStr(s.Values[len(s.Values)-1].V))
 					}
@@ -191,4 +209,14 @@ func (famDecoder) Exec(scn int, raw json.RawMessage, t *Trace, _ map[string]stri
 		}
 	}
 	return nil
+}
+
+// indexOfCtr: 1-based position of the container with the given id in the inventory.
+func indexOfCtr(ctrs []FakeCtr, id string) int {
+	for i := range ctrs {
+		if S(ctrs[i].BID) == id {
+			return i + 1
+		}
+	}
+	return 1
 }
